@@ -6,7 +6,7 @@
    layout of server/core/storage.go (one meta record per store + two separate weight keys).
    Definitions only; proofs live in proof/C14_StoreProof.v.
 
-   Faithfulness notes (the code as it is, after the fix commits 52967fc, 5702f33, fd69f18, a34a40d in /repo):
+   Faithfulness notes (the code as it is, after the fix commits 7f1a0f1, 0d04e9a, eebcdab, 672f6cb in /repo):
    * MergeLabels works on a copy of the served labels; nothing served changes before the save.
    * weights are stored under two keys of their own, written before the meta record; when one of the
      three writes fails the two keys are put back (best effort: the restoring writes are not faulted
@@ -229,7 +229,7 @@ Definition do_bury (s : state) (id : Z) (f : fault) : state * res :=
   | Some x =>
       if is_tomb x then (s, ROk)
       else if sstate_eqb (s_state x) Up then (s, RIsUp)
-      (* fix b5aa87e: the region tree is looked at again under the lock (checkStores read it without) *)
+      (* fix 2f015b8: the region tree is looked at again under the lock (checkStores read it without) *)
       else if negb (tree_count s id =? 0) then (s, RHasPeers)
       else let '(s1, ok) := put_locked s id (with_state x Tombstone (s_pd x)) f 0 in
            (version_change s1, if ok then ROk else RStorage)
@@ -504,7 +504,7 @@ Definition mon_step (past : list op) (rg : amap (list Z)) (o : op) (prev cur : o
        end
    | _ => []
    end) ++
-  (* 3 buried only while empty (whoever calls buryStore: it re-checks the region tree under the lock, fix b5aa87e) *)
+  (* 3 buried only while empty (whoever calls buryStore: it re-checks the region tree under the lock, fix 2f015b8) *)
   (match o with
    | _ => if forallb (fun id => match vget ps id, vget cs id with
                                 | Some x, Some y =>
@@ -610,7 +610,7 @@ Definition removed_record_back (a b : op) (o : oobs) : bool :=
 Definition monitor_o (c : ocase) : list string :=
   let '(cv, p, setup, a, b, o) := c in
   let s0 := run_state run_op (boot cv p) setup in
-  ((* fix fdb55d1: UpdateStoreLabels used to look the store up before the cluster lock, so pairs with a label update were
+  ((* fix b1c60ab: UpdateStoreLabels used to look the store up before the cluster lock, so pairs with a label update were
       not serialisable (driver's scripted pairs 3 and 4 are the regressions) *)
    (if serialisable c then [] else ["C14:overlapping-operations-not-serialisable"]) ++
    (if removed_record_back a b o then ["C14:tombstone-returned"] else []) ++
